@@ -16,7 +16,7 @@ def le8(v):
 def build(ctx, alt=False):
     R = core.REPO
     o = os.path.join(ctx.work, "sprintf%s.o" % ("_alt" if alt else ""))
-    ctx.sh(["gcc", "-std=gnu11", "-g"] + core.opt_flags(alt) + ["-fsanitize=address", "-fno-omit-frame-pointer", "-w", "-fno-builtin", "-I" + R,
+    ctx.sh(["gcc", "-std=gnu11", "-g"] + core.opt_flags(alt) + core.cov_flags() + ["-fsanitize=address", "-fno-omit-frame-pointer", "-w", "-fno-builtin", "-I" + R,
             "-Dsprintf=igv_sprintf", "-Dvsprintf=igv_vsprintf", "-Dsnprintf=igv_snprintf", "-c", R + "/compat/libc/stdio/sprintf.c", "-o", o], timeout=300)
     return ctx.cxx("drv_printf" + ("_alt" if alt else ""), ["drv_printf.cpp", R + "/igris/util/printf_impl.c"], objs=[o], libs=["-lm"], alt=alt)
 
